@@ -504,6 +504,8 @@ def run_chunk(ctx, family='wf', scenarios=None, interferers=None):
     boot.boot()
     if family == 'wf':
         run_wf_cases(ctx, scenarios, interferers)
+    elif family == 'action':
+        run_action_cases(ctx)
     else:
         run_cron_cases(ctx)
 
@@ -659,3 +661,143 @@ def run_cron_cases(ctx, stream='race-cron'):
                 elif real != mod:
                     ctx.disagree(stream, case, mod, real)
                 ctx.sample({'stream': stream, 'case': case, 'real': real})
+
+
+# =====================================================================================
+# action execution row: two results for one action execution (C03 "accepted at most once")
+# =====================================================================================
+ACT_TABLE = 'action_executions_v2'
+
+
+class ActWorld(object):
+    def __init__(self, seed=0):
+        from harness import engine_driver
+        self.w = engine_driver.EngineWorld(seed=seed, id_mode='seq')
+        from mistral.db.v2.sqlalchemy import models
+        self.tap = tap()
+        self.tap.watch(models.ActionExecution, ACT_TABLE, 'state')
+        self.aid = None
+
+    def results(self):
+        from mistral_lib import actions as ml
+        return {'ok': ml.Result(data='second'), 'error': ml.Result(error='first'),
+                'ok2': ml.Result(data='first-ok')}
+
+    def prepare(self, which):
+        w = self.w
+        w._reset()
+        w.create_workflows(WF_YAML)
+        w.start_workflow('race_wf')
+        for _ in range(8):
+            for item in w.enabled():
+                kind, x = item
+                if kind == 'p' and x.kind == 'action':
+                    self.aid = x.data['action_ex_id']
+                    res = self.results()[which]
+                    return lambda: w.op('on_action_complete', self.aid, res)
+            en = w.enabled()
+            if not en:
+                break
+            w.deliver(en[0])
+        raise RuntimeError('no action became pending')
+
+    def interferer(self, which):
+        from mistral import context as auth_context
+        res = self.results()[which]
+
+        def run():
+            auth_context.set_ctx(self.w.ctx)
+            try:
+                self.w.engine.on_action_complete(self.aid, res)
+            except Exception as e:      # a rejected result raises to the RPC layer
+                self.intf_error = type(e).__name__
+            self.after_intf = self.row()
+        return run
+
+    def row(self):
+        from mistral.db.v2 import api as db_api
+        from mistral_lib import utils
+        from mistral.db.sqlalchemy import base as db_base
+        names = [db_base._DB_SESSION_THREAD_LOCAL_NAME, db_base._TX_SCOPED_CACHE_THREAD_LOCAL_NAME]
+        saved = [utils.get_thread_local(n) for n in names]
+        for n in names:
+            utils.set_thread_local(n, None)
+        was = self.tap.in_intf
+        self.tap.in_intf = True
+        try:
+            with db_api.transaction(read_only=True):
+                e = db_api.get_action_execution(self.aid)
+                return [e.state, None, _jd(e.output), bool(e.accepted), None]
+        finally:
+            self.tap.in_intf = was
+            for n, v in zip(names, saved):
+                utils.set_thread_local(n, v)
+
+    def run(self, which, intf=None, at=None):
+        script = self.prepare(which)
+        row0 = self.row()
+        self.after_intf = None
+        self.intf_error = None
+        n_err = len(self.w.errors)
+        self.tap.start(inject_at=at, injector=self.interferer(intf) if intf else None)
+        try:
+            script()
+        finally:
+            log = self.tap.stop()
+        errs = self.w.errors[n_err:]
+        return {'row0': row0, 'row': self.row(), 'log': log, 'after_intf': self.after_intf,
+                'injected': self.tap.injected, 'errors': [(e['type'], e['declared']) for e in errs]}
+
+
+def run_action_cases(ctx, stream='race-action'):
+    from vlib import core
+    from translate import race_scripts
+    try:
+        scripts, _ = race_scripts.scripts(core.REPO)
+    except Exception:
+        scripts = None
+    W = ActWorld(seed=ctx.seed)
+    drv = ctx.driver() if scripts is not None else None
+    sname = 'actionComplete'
+    for which, intf in (('ok', 'error'), ('ok', 'ok2'), ('error', 'ok2')):
+        solo = W.run(which)
+        isolo = W.run(intf)['row']
+        row0, solo_row = solo['row0'], solo['row']
+        try:
+            positions = model_positions(scripts[sname], solo['log']) if scripts else \
+                [(e['n'], None) for e in significant(solo['log'])]
+        except ValueError as e:
+            ctx.disagree(stream, {'shape': True, 'which': which}, str(e), [(x['kind'], x['sig']) for x in solo['log']])
+            positions = [(e['n'], None) for e in significant(solo['log'])]
+        # the script's pre-lock positions: up to and including its first write
+        for (n, gap) in positions:
+            r = W.run(which, intf, n)
+            case = {'family': 'action', 'script': sname, 'result': which, 'interferer': 'result:' + intf,
+                    'position': n, 'gap': gap,
+                    'statement': next((e['sql'][:60] for e in solo['log'] if e['n'] == n), None)}
+            ctx.count(stream, 'result:%s/%s' % (which, intf))
+            if not r['injected']:
+                ctx.count(stream, 'not-injected')
+                continue
+            ctx.evaluated(stream, [which, intf, n], nontrivial=True)
+            a = r['after_intf']
+            first = n == positions[0][0]
+            if not first and a is not None and a[0] in FINAL and a[3] and r['row'] != a:
+                ctx.violation(
+                    'action execution whose result was accepted (%s, output %s) by one engine transaction was '
+                    'overwritten by a second result handled concurrently: now %s, output %s (RegularAction.complete '
+                    'checks is_completed on its stale copy and writes state/output unconditionally)'
+                    % (a[0], a[2][:60], r['row'][0], r['row'][2][:60]),
+                    dict(case, kind='race', real={'row': r['row'], 'after_interferer': a, 'row0': row0}),
+                    {'kind': 'accepted-action-result-overwritten-by-racing-result'})
+            if drv is None or gap is None:
+                continue
+            m = drv.call('race.run', {
+                'script': sname, 'vars': [solo_row[0], None, solo_row[2]],
+                'row': {'alive': True, 'f': row0},
+                'sched': [[gap, [{'script': sname, 'vars': [isolo[0], None, isolo[2]]}]]]})
+            real = {'row': r['row'], 'rejected': bool(r['errors'])}
+            mod = {'row': m['db']['f'], 'rejected': m['status'] == 'aborted'}
+            if real != mod:
+                ctx.disagree(stream, case, mod, real)
+            ctx.sample({'stream': stream, 'case': case, 'real': real})
